@@ -990,6 +990,21 @@ def gen2(units, R, floor=1):
                 prints.append((c, b['d'], iv['d']))
         if not prints:
             continue
+        # pointers that are only ever pointed at an index buffer (or NULL) stand for that buffer
+        pdefs = {}
+        for a_ in assignments(fn):
+            if is_ref(a_['l']):
+                pdefs.setdefault(strip_casts(a_['l'])['d'], []).append(a_['r'] if a_['op'] == '=' else None)
+        for d_ in fn.locals():
+            if 'init' in d_:
+                pdefs.setdefault(d_['d'], []).append(d_['init'])
+        bufset = {p_[1] for p_ in prints}
+        alias = {}
+        for pd_, rs_ in pdefs.items():
+            tg = {strip_casts(r_).get('d') for r_ in rs_ if r_ is not None and not is_null_const(r_) and strip_casts(r_).get('k') == 'ref'}
+            if pd_ not in bufset and rs_ and all(r_ is not None and (is_null_const(r_) or strip_casts(r_).get('k') == 'ref') for r_ in rs_) and \
+                    len(tg) == 1 and next(iter(tg)) in bufset:
+                alias[pd_] = next(iter(tg))
         cfg = fn.cfg()
         succ = {m.id: {y for (y, _l) in cfg.succ[m.id]} for m in cfg.nodes}
 
@@ -1021,7 +1036,7 @@ def gen2(units, R, floor=1):
                     else:
                         steps.setdefault(d, {})[m.id] = 0
         for (c, op) in emits:
-            bufs = {x['d'] for a in c['args'] for x in walk(a) if x.get('k') == 'ref' and x.get('d') in {p[1] for p in prints}}
+            bufs = {alias.get(x['d'], x['d']) for a in c['args'] for x in walk(a) if x.get('k') == 'ref' and alias.get(x.get('d'), x.get('d')) in bufset}
             if not bufs:
                 continue
             node = node_containing(cfg, c)
